@@ -354,8 +354,8 @@ def check_C15(tier, seed, t0):
 
 
 def check_C16(tier, seed, t0):
-    own = ["SvdFinite", "SingularValuesNonNegative", "SingularValuesNonIncreasing", "CountsAgree", "ColsAreMinKNconv", "FactorShapes", "DescribesMostRecentCompute",
-           "MatchesLargestSingularValues", "FactorsOrthonormal", "FactorIdentities", "UnknownRow"]
+    own = ["SvdFinite", "SingularValuesNonNegative", "SingularValuesNonIncreasing", "CountsAgree", "ColsAreMinKNconv", "ColsIndependentOfCallOrder", "FactorShapes", "DescribesMostRecentCompute",
+           "MatchesLargestSingularValues", "FactorsFinite", "FactorsOrthonormal", "FactorIdentities", "UnknownRow"]
     return aux_flow("C16", tier, seed, t0, "svd", n_of(tier, 24, 120), own, [("PartialSVD.tla", "SVD.cfg", 4)], [("PartialSVD.tla", "SVD_neg.cfg", 2)], [
         "design model: all sequences of compute / matrix_U / matrix_V up to 6 calls: reads always describe the most recent compute (negative control: cache never invalidated)",
         "runs: tall/wide/square, dense col-/row-major and sparse, prescribed singular values incl. exactly rank-deficient matrices, every solver used for two compute() calls "
